@@ -10,7 +10,7 @@
 //! Result shape today: one single-entry map *per field* (key = field index), records not
 //! grouped; the harnesses demand the flattened (index, type, value) sequence.
 use crate::common::*;
-use crate::d9::{num_at, unsigned_kernel_model};
+use crate::km::{num_at, unsigned_kernel_model};
 use netflow_parser::variable_versions::data_number::{DataNumber, FieldDataType, FieldValue};
 use netflow_parser::variable_versions::ipfix::{Data, IPFixParser, OptionsData, OptionsTemplate, Template, TemplateField};
 use netflow_parser::variable_versions::ipfix_lookup::IPFixField;
@@ -200,7 +200,7 @@ fn d_ipfix_varlen_second_shorter_kf() {
 #[cfg(feature = "off")]
 #[kani::proof]
 #[kani::stub(core::fmt::write, no_fmt)]
-#[kani::stub(netflow_parser::variable_versions::data_number::FieldValue::from_field_type, crate::d9::unknown_off_kernel_model)]
+#[kani::stub(netflow_parser::variable_versions::data_number::FieldValue::from_field_type, crate::km::unknown_off_kernel_model)]
 fn d_ipfix_unknown_field_off() {
     let n: u16 = kani::any();
     kani::assume(n < 32768 && IPFixField::from(n) == IPFixField::Unknown);
